@@ -41,6 +41,12 @@ COAP_EVT = ["EN", "EU", "EL0", "EL1", "ER0", "ER1", "EC"]     # event channel in
 # BLE GATT faults: write of fragment j refused with the link staying up (W) / dropping (V), read errors (T, TB, D)
 # CoAP subscriptions on ONE live session: subscribe / unsubscribe-everything (each with its response), events, replays
 COAP_SUBS = ["SUB+N", "UNS+N", "EN", "ER0", "SUB"]
+# CoAP events INSIDE a request/response exchange: datagrams (genuine, duplicate, corrupted) that arrive while post_bytes
+# holds the context lock, then the response / a cancellation / a timeout lets everything that waited go on
+COAP_EVLOCK = ["S1.0", "N", "EN", "ER0", "EC", "X", "T"]
+# BLE read retries: a GATT read of a (continuation) fragment fails with the link up and the relay presents recorded
+# fragments again (R0/R1) - a fragment of a multi-fragment response must never be decrypted successfully twice
+BLE_RETRY = ["S30.1", "N", "TB", "R0", "R1", "X", "T"]
 BLE_FAULT = ["S1.0", "S30.1", "N", "W1.0.0", "W30.1.0", "W30.1.1", "V30.1.0", "TB", "D", "LD", "RC", "X"]
 
 
@@ -1146,6 +1152,8 @@ class CoapRun:
         self.acc = {}
         self.cache = {}
         self.got_events = []
+        self.evt_tasks = []      # render_put tasks that have not finished yet
+        self.evt_state = {}      # render_put task -> [entries delivered so far, entry at which the listener raises]
         self.sessions = []
         self.stub = None
 
@@ -1250,14 +1258,15 @@ class CoapRun:
         return {(d, i): f for (e, d, i), f in self.cache.items() if e == self.acc_epoch - 1}
 
     def _listener(self, ev):
-        """The pairing's event_received; may be scripted to raise at the j-th entry of the datagram being processed."""
-        j, self.entries_seen = self.entries_seen, self.entries_seen + 1
-        if self.raise_at is not None and j == self.raise_at:
+        """The pairing's event_received; may be scripted to raise at the j-th entry of the datagram being processed
+        (the script belongs to the render_put task of that datagram, which may finish many events later)."""
+        st = self.evt_state.get(asyncio.current_task(self.loop))
+        if st is None:
+            raise RuntimeError("C06 harness: event_received called outside a render_put task")
+        j, st[0] = st[0], st[0] + 1
+        if st[1] is not None and j == st[1]:
             raise RuntimeError("subscriber callback failed")
         self.got_events.append(ev)
-
-    entries_seen = 0
-    raise_at = None
 
     def frame(self, d, i, kind="EN"):
         e = self.acc_epoch
@@ -1285,13 +1294,28 @@ class CoapRun:
         self.stub.waiter.set_result(types.SimpleNamespace(code=Code.NOT_FOUND if not_found else Code.CHANGED, payload=payload))
 
     def event(self, payload, raise_at=None):
-        self.entries_seen, self.raise_at = 0, raise_at
+        """One event datagram handed to the resource the way aiocoap does: render_put runs as a task of its own.  On
+        the unchanged code it has no suspension point; if it suspends (e.g. waits for the context lock a request in
+        flight holds) the task stays pending and goes on whenever the history lets it - further datagrams and the
+        response of the request arrive meanwhile.  Pending ones are cancelled at the end of the history."""
         t = self.loop.create_task(self.res.render_put(types.SimpleNamespace(payload=payload)))
+        self.evt_state[t] = [0, raise_at]
+        self.evt_tasks.append(t)
         settle(self.loop)
-        self.raise_at = None
-        if not t.done():
-            raise RuntimeError("render_put did not complete")
-        t.exception()         # a processing error is the resource's business (aiocoap answers 5.00); counters are what matters
+        self.reap_events()
+
+    def reap_events(self):
+        for t in [t for t in self.evt_tasks if t.done()]:
+            self.evt_tasks.remove(t)
+            self.evt_state.pop(t, None)
+            if not t.cancelled():
+                t.exception()     # a processing error is the resource's business (aiocoap answers 5.00); counters are what matters
+
+    def finish_events(self):
+        for t in self.evt_tasks:
+            t.cancel()
+        settle(self.loop)
+        self.reap_events()
 
     def step(self, ev):
         from aiocoap.error import NetworkError
@@ -1360,6 +1384,7 @@ class CoapRun:
             f[-1] ^= 1
             self.event(bytes(f))
         settle(self.loop)
+        self.reap_events()
         self.reqs.collect()
 
 
@@ -1387,6 +1412,8 @@ def run_impl(transport, toks):
         LAST_META = "+".join(getattr(r, "sessions", [])[:4])
     finally:
         if r is not None:
+            if hasattr(r, "finish_events"):
+                r.finish_events()
             r.reqs.finish()
         TRACE = None
     return canon, items
@@ -1507,9 +1534,15 @@ def random_histories(transport, r, count, maxlen):
                         h.append("+".join(parts) + r.choice(["", "@1", "@2", "@3", "@10", "@17", "@-1", "@-16", "@-17"]))
                 elif transport == "ble":
                     c = r.choice([0, 1])
-                    h += [f"S{r.choice([0, 1, 20, 21, 45, 46, 70])}.{c}", "N"] + (["N"] if c else [])
+                    h += [f"S{r.choice([0, 1, 20, 21, 45, 46, 70])}.{c}", "N"]
+                    if c and r.random() < 0.15:
+                        # the continuation read fails (link up) and the relay presents recorded fragments again
+                        h += [r.choice(["TB", "TB", "T"]), "R" + str(r.choice([0, 1, 2, 3, 5])), "N"]
+                    elif c:
+                        h.append("N")
                 else:
-                    h += r.choice([["S1.0", "N"], ["S1.0", "N"], ["EN"]])
+                    h += r.choice([["S1.0", "N"], ["S1.0", "N"], ["EN"],
+                                   ["S1.0", "EN", "ER" + str(r.choice([0, 1, 2, 5, 9])), r.choice(["N", "N", "X", "T", "C"])]])
             else:
                 kinds = ["S", "N", "R", "F", "C", "X", "T", "RC", "RD", "O", "D"]
                 if transport == "coap":
@@ -1565,6 +1598,9 @@ DIRECTED = {
         ["EL1", "ER0", "EN"], ["EN", "EU", "ER1", "ER1", "EN"], ["EM", "EL0", "ER1", "ER0", "EN", "ER2"],
         # one session: subscribe, events, unsubscribe everything, subscribe again, replay the recorded events
         ["SUB", "N", "EN", "EN", "UNS", "N", "SUB", "N", "ER0", "ER1", "EN", "SUB", "UNS", "X", "SUB", "N"],
+        # event datagrams (and duplicates) arriving while a request is in flight, then the response
+        ["S1.0", "EN", "ER0", "N", "EN"], ["EN", "S1.0", "EN", "ER1", "EC", "N", "EN", "S1.0", "ER0", "ER2", "X", "EN", "SUB", "EN", "ER3", "N"],
+        ["S1.0", "EL1", "ER0", "EM", "T", "RC", "S1.0", "EN", "ER0", "N"],
     ],
     "ip": [
         ["S1025.0", "N", "R0", "S1.0", "RC", "S1.0", "O0"],
@@ -1592,6 +1628,8 @@ DIRECTED = {
         # an attacker replays the recorded pair-verify (M2/M4) on the next connection, then recorded frames
         ["S1.0", "N", "RR", "S1.0", "R0", "RC", "S1.0", "N", "RR", "RD", "S1.0", "N"],
         ["S1.0", "N", "LD", "S1.0", "R0", "S1.0", "LD", "N", "LD", "S1.0", "O0"],
+        # a continuation read fails with the link up and the relay presents the recorded first fragment again
+        ["S30.1", "N", "TB", "R0", "N"], ["S1.0", "N", "S30.1", "N", "TB", "R1", "N", "S1.0"], ["S30.1", "TB", "N", "R0", "N", "S1.0", "N"],
     ],
 }
 
@@ -1781,6 +1819,8 @@ def run(ctx):
     evt_alpha = [a for a in COAP_EVT if not (quick and a == "EL0")]
     seg_alpha = [a for a in IP_SEG if not (quick and a in ("N+N@2", "R0", "N@1", "N+N+N@2"))]
     fault_alpha = [a for a in BLE_FAULT if not (quick and a in ("S1.0", "V30.1.0"))]
+    evlock_alpha = [a for a in COAP_EVLOCK if not (quick and a == "T")]
+    retry_alpha = [a for a in BLE_RETRY if not (quick and a == "T")]
     alpha_used = {}
     for transport in ("ip", "ble", "coap"):
         alpha_used[transport] = [a for a in ALPHA[transport] if a not in drop[transport]]
@@ -1790,6 +1830,7 @@ def run(ctx):
         if transport == "coap":
             hists += [list(t) for t in itertools.product(evt_alpha, repeat=core_depth)]
             hists += list(exhaustive(COAP_SUBS, core_depth))
+            hists += list(exhaustive(evlock_alpha, core_depth))
         if transport == "ip":
             hists += list(exhaustive(seg_alpha, full_depth))
         if transport in SESS:
@@ -1799,6 +1840,7 @@ def run(ctx):
             hists += list(exhaustive(IP_BAD, full_depth))
         if transport == "ble":
             hists += list(exhaustive(fault_alpha, 4))
+            hists += list(exhaustive(retry_alpha, full_depth))
         n_core = len(hists) - n_full
         hists += DIRECTED[transport]
         hists += LONG[transport]
@@ -1862,9 +1904,12 @@ def run(ctx):
         "fault alphabet %s (W/V n.cont.j = write of fragment j refused with the link up / dropping, TB/T/D read faults); CoAP "
         "additionally every history of length <= %d over the subscription alphabet %s (real CoAPPairing.subscribe/unsubscribe on one session); "
         "IP and CoAP additionally every history of length <= %d over the session alphabets %s (RR = reconnect against a peer replaying a "
-        "recorded pair-verify, N4 = 4.04 response)"
+        "recorded pair-verify, N4 = 4.04 response); CoAP additionally every history of length <= %d over the events-inside-an-exchange "
+        "alphabet %s (event datagrams and duplicates delivered while post_bytes holds the context lock); BLE additionally every "
+        "history of length <= %d over the read-retry alphabet %s (continuation read fails with the link up, recorded fragments presented again)"
         % (full_depth, alpha_used, core_depth, {k: [a for a in v if a not in core_drop[k]] for k, v in CORE.items()}, core_depth, evt_alpha,
-           full_depth, seg_alpha, 4, fault_alpha, core_depth, COAP_SUBS, full_depth, SESS))
+           full_depth, seg_alpha, 4, fault_alpha, core_depth, COAP_SUBS, full_depth, SESS,
+           core_depth, evlock_alpha, full_depth, retry_alpha))
     cov.extra["case_counts"] = counts
     cov.extra["disagreements_checked"] = mismatches
     cov.extra["compared"] = "seal log, wire log, open attempts (nonce, success), accepted frame identities, per-request outcome class"
